@@ -10,6 +10,10 @@ pub const STR_ATOMS: &[&str] = &[
     ",a,", "x", "Z", "z", "1", "2", "10", "9", "65", "0x10", "ff", "FF", "zz", "-ff", "1_0", "\t", "a b c", "hello world",
     // every letter case of the non-finite spellings, exponents out of range, digits that are not ASCII
     "Infinity", "INF", "Inf", "-Infinity", "+inf", "INFINITY", "NAN", "Nan", "1e400", "-1e400", "1e-400", "1e+2", "0.1e1", "١٢٣", "１２", "1,5", "0b11", "0o7", "e5", "1e", "--1", "+-1", "+", "-", ".", "1.2.3",
+    // equal to the eye, not to the machine: decomposed e-acute (composed is above), numbers one ulp apart, letter case
+    // a backslash is a character like any other (there are no escape sequences)
+    "\\n", "\\t", "\\\\", "C:\\temp\\new", "\\", "\\u{41}", "\\0", "%s", "{}", "$x",
+    "e\u{301}", "0.30000000000000004", "0.3", "ABC", "Abc", "1.0", "1.", "01", "1e0", "İ", "ß", "SS",
 ];
 
 /// numeric-looking strings at the edges of integer types, with more leading zeros than any integer type has digits
@@ -52,7 +56,7 @@ pub fn gen_number_expr(t: &mut Tape) -> (Expr, String) {
         2 => {
             // ties, neighbours of ties, and the places where `floor(x + 0.5)` or a cast goes wrong
             let v = *t.choose(&[
-                0.5, 1.5, 2.5, 0.1, 0.25, 3.7, 3.2, 0.999, 2.0000001, 1e-17, 5e-324, 1e-300, 2.220446049250313e-16, 1.1102230246251565e-16, 0.49999999999999994, 0.5000000000000001, 1.4999999999999998, 3.5, 4.5,
+                0.5, 1.5, 2.5, 0.1, 0.25, 3.7, 3.2, 0.999, 0.3, 0.30000000000000004, 0.1 + 0.2, 1.0000000000000002, 0.9999999999999999, 2.0000001, 1e-17, 5e-324, 1e-300, 2.220446049250313e-16, 1.1102230246251565e-16, 0.49999999999999994, 0.5000000000000001, 1.4999999999999998, 3.5, 4.5,
                 4503599627370497.0, 4503599627370495.5, 4503599627370496.5, 2251799813685247.5, 8388607.5, 2147483647.5, 2147483648.5, 4294967295.5,
             ]);
             if t.chance(1, 3) {
